@@ -614,10 +614,84 @@ def plan(tier, seed):
     nhist = 3000 if tier == 'quick' else 12000
     for i in range(16):
         shards.append({'kind': 'hist', 'n': nhist // 16, 'steps': 40 if tier == 'quick' else 80, 'seed': shard_seed(seed, PROPERTY, 'h%d' % i)})
+    nsk = 3200 if tier == 'quick' else 80000
+    for i in range(4):
+        shards.append({'kind': 'skmem', 'n': nsk // 4, 'seed': shard_seed(seed, PROPERTY, 'k%d' % i)})
     nseq = 8000 if tier == 'quick' else 160000
     for i in range(8):
         shards.append({'kind': 'seq3', 'n': nseq // 8, 'seed': shard_seed(seed, PROPERTY, 's%d' % i)})
     return shards
+
+
+# ---------------------------------------------------------------------------- skoolutils.Memory (the third paging implementation)
+SKMEM_OP = st.one_of(
+    st.tuples(st.just('load'), st.integers(0, 7), st.integers(1, 255)),
+    st.tuples(st.just('page'), st.integers(0, 7)),
+    st.tuples(st.just('out'), st.sampled_from([0x7FFD, 0x7FFD, 0x00FD, 0x7FFF, 0xFFFD]), st.integers(0, 255)),
+    st.tuples(st.just('poke'), st.sampled_from([0x4000, 0x4100, 0x7FFF, 0x8000, 0xBFFF, 0xC000, 0xC100, 0xFFFF]) | st.integers(0x4000, 0xFFFF), st.integers(0, 255)),
+    st.tuples(st.just('slice'), st.sampled_from([0x7FFE, 0xBFFE, 0xFFFC, 0x4000, 0xC000]), st.integers(1, 6), st.integers(0, 255)),
+    st.tuples(st.just('copy')),
+    st.tuples(st.just('convert')),
+)
+skmem_cases = st.builds(lambda ops: {'skmem': [list(o) for o in ops]}, st.lists(SKMEM_OP, min_size=2, max_size=14))
+
+
+def skmem_oracle(case, rec=None):
+    """skoolutils.Memory (memory of the skool parser, #SIM, #AUDIO, skool2bin) with skoolmacro.PagingTracer, against a
+    model: 8 banks, banks 5/2 fixed at 0x4000/0x8000, the paged bank at 0xC000, ROM untouched, every write in one bank."""
+    from skoolkit.skoolutils import Memory
+    from skoolkit.skoolmacro import PagingTracer
+    mem = Memory()
+    mem.bank(0)                       # 128K from the start
+    tracer = PagingTracer(mem, mem.o7ffd, 0, [0] * 16)
+    model = ula.Paging128([bytes(16384)] * 8, [bytes(r) for r in mem.roms], 0)
+    ops = case['skmem']
+    paged = False
+    for n, op in enumerate(ops):
+        k = op[0]
+        if k == 'load':
+            data = [(op[2] + 7 * i) & 255 for i in range(16384)]
+            mem.bank(op[1], data)
+            model.banks[op[1]] = bytearray(data)
+        elif k == 'page':
+            mem.bank(op[1])
+            model.last = (model.last & 0xF8) | op[1]
+            paged = True
+        elif k == 'out':
+            tracer.write_port(None, op[1], op[2], 0)
+            model.out(op[1], op[2])
+        elif k == 'poke':
+            mem[op[1]] = op[2]
+            model.write(op[1], op[2])
+        elif k == 'slice':
+            a, cnt, v = op[1], op[2], op[3]
+            vals = [(v + i) & 255 for i in range(cnt)]
+            if a + cnt <= 0x10000:
+                mem[a:a + cnt] = vals
+                for i, x in enumerate(vals):
+                    model.write(a + i, x)
+        elif k == 'copy':
+            mem = mem.copy()
+            tracer = PagingTracer(mem, tracer.out7ffd, 0, [0] * 16)
+        elif k == 'convert':
+            mem.convert()
+        where = 'after op %d %r' % (n + 1, op)
+        page = model.last & 7
+        for p in range(8):
+            if bytes(mem.banks[p]) != bytes(model.banks[p]):
+                i = next(i for i in range(16384) if mem.banks[p][i] != model.banks[p][i])
+                raise Violation('skmem:bank', 'skoolutils.Memory %s: RAM bank %d offset %d holds %d, model %d' % (where, p, i, mem.banks[p][i], model.banks[p][i]), case)
+        for base, p in ((0x4000, 5), (0x8000, 2), (0xC000, page)):
+            for off in (0, 1, 0x100, 0x3FFF):
+                if mem[base + off] != model.banks[p][off]:
+                    raise Violation('skmem:mapping', 'skoolutils.Memory %s: address %d reads %d, bank %d holds %d there (mis-paged)' % (
+                        where, base + off, mem[base + off], p, model.banks[p][off]), case)
+        rom = (model.last >> 4) & 1
+        if any(mem[a] != model.roms[rom][a] for a in (0, 1, 0x38, 0x1000, 0x3FFF)):
+            raise Violation('skmem:rom', 'skoolutils.Memory %s: ROM %d is not what is read at 0x0000-0x3FFF' % (where, rom), case)
+    if rec is not None:
+        kinds = set(o[0] for o in ops)
+        rec.case(repr(ops), 'load' in kinds and ('page' in kinds or 'out' in kinds), ['skmem'] + ['skmem:' + k for k in sorted(kinds)], case)
 
 
 def run_shard(shard, rec):
@@ -628,6 +702,8 @@ def run_shard(shard, rec):
         hyp_run(rec, c06.cases(shard['tier']), lambda c: program_oracle(c, rec), shard['n'], shard['seed'])
     elif k == 'hist':
         run_stateful(shard, rec)
+    elif k == 'skmem':
+        hyp_run(rec, skmem_cases, lambda c: skmem_oracle(c, rec), shard['n'], shard['seed'])
     else:
         hyp_run(rec, seq3(), lambda c: seq_oracle(c, rec), shard['n'], shard['seed'], shrink=False)
 
@@ -635,6 +711,8 @@ def run_shard(shard, rec):
 def replay(case):
     if isinstance(case, list):
         replay_history(case)
+    elif 'skmem' in case:
+        skmem_oracle(case)
     elif 'sequence' in case:
         seq_oracle(case)
     else:
@@ -643,6 +721,6 @@ def replay(case):
 
 MANIFEST_ENTRY = {
     'technique': 'stateful (rule-based) model testing against a paging/shadow-bank reference, per-step invariants over generated programs, and complete enumeration of short 0x7FFD write sequences',
-    'level_text': 'Invariants (ROM identical, register ranges, cell ranges, T monotone, mapping = last accepted 0x7FFD write, lock bit, banks 5/2 fixed, a store reaches exactly the bank the model routes it to) are checked after every instruction of generated programs and after every rule of Hypothesis state-machine histories whose rules are executed by the simulated CPU (14 store forms, 4 OUT forms, CPU read-back, random code) on all four implementations; all 1- and 2-element value sequences to 0x7FFD and 256 values x 16 ports are enumerated completely.',
+    'level_text': 'Invariants (ROM identical, register ranges, cell ranges, T monotone, mapping = last accepted 0x7FFD write, lock bit, banks 5/2 fixed, a store reaches exactly the bank the model routes it to) are checked after every instruction of generated programs and after every rule of Hypothesis state-machine histories whose rules are executed by the simulated CPU (14 store forms, 4 OUT forms, CPU read-back, random code) on all four implementations; all 1- and 2-element value sequences to 0x7FFD and 256 values x 16 ports are enumerated completely. A third paging implementation, skoolutils.Memory with skoolmacro.PagingTracer (memory of the skool parser and the simulator macros), is driven through generated sequences of bank loads, paging calls, port writes, pokes, slice writes, copy() and convert() against the same model.',
     'level_note': 'Trusted: ref/ula.Paging128 (30 lines). After unmodelled random code the shadow banks are re-synchronised, so lost/misrouted stores are detected for modelled store forms only; mapping, ROM and ranges are always exact.',
 }
